@@ -17,7 +17,9 @@ mod monitors;
 mod net;
 mod puppet;
 mod result;
+mod scen_byz;
 mod scen_cluster;
+mod scen_e2e;
 mod scen_hostile;
 mod scen_puppet;
 mod world;
@@ -62,6 +64,8 @@ fn main() {
         let seed = seed0 + k;
         match workload.as_str() {
             "cluster" => scen_cluster::run(&class, seed, &params).print(),
+            "byz" => scen_byz::run(&class, seed, &params).print(),
+            "e2e" => scen_e2e::run(&class, seed, &params).print(),
             "hostile" => scen_hostile::run(&class, seed, &params).print(),
             "puppet" => scen_puppet::run(&class, seed, &params).print(),
             "c11" | "c12" => comp_mempool::run(&workload, &class, seed, &params).print(),
